@@ -146,6 +146,17 @@ Definition step (s : dsu) (o : op) : res (dsu * ret) :=
   | Reset n => match reset s n with Ok s' => Ok (s', RU) | Panic => Panic | Fuel => Fuel end
   end.
 
+(** What a call that panics leaves behind (a caller that catches the unwind keeps using the value).  From every
+    reachable state the only panic is the bounds check of the first access [self.p[v]] of a find whose argument
+    is out of range (c05_panic_iff_out_of_range); [un] and [check] have then already completed the find of
+    their first argument when that one is in range (its path is compressed), every other panicking call has
+    written nothing. *)
+Definition panic_state (s : dsu) (o : op) : dsu :=
+  match o with
+  | Un u _ | Check u _ => match par s u with Ok (s1, _) => s1 | _ => s end
+  | Par _ | Size _ | Reset _ => s
+  end.
+
 (** Several live copies: a call on copy [c], or [Clone c] which appends a copy of copy [c]. *)
 Inductive mop := On (c : nat) (o : op) | Clone (c : nat).
 
